@@ -178,6 +178,12 @@ export function renderDecl(d) {
       return `${renderDoc(d.doc)}${ex}type ${d.name}${params} = ${renderType(d.t)};`;
     case "iface": {
       const ext = d.ext && d.ext.length ? ` extends ${d.ext.map(renderType).join(", ")}` : "";
+      // splitAt: the same interface written as two declarations that merge (props before / from that index)
+      if (d.splitAt > 0 && d.splitAt < d.props.length) {
+        const first = renderProps(d.props.slice(0, d.splitAt), null);
+        const second = renderProps(d.props.slice(d.splitAt), d.index);
+        return `${renderDoc(d.doc)}${ex}interface ${d.name}${params}${ext} { ${first.join("; ")} }\n${ex}interface ${d.name}${params} { ${second.join("; ")} }`;
+      }
       const parts = renderProps(d.props, d.index);
       return `${renderDoc(d.doc)}${ex}interface ${d.name}${params}${ext} { ${parts.join("; ")} }`;
     }
